@@ -248,6 +248,7 @@ func genHistory(r *rand.Rand, idx int) []op {
 		return fmt.Sprintf("recorder-%d-%d", idx, specN)
 	}
 	exists := map[string]bool{}
+	lastCreate := map[string]op{} // per id: the most recent create, to be repeated verbatim after a delete
 	for len(h) < n {
 		mid := mids[r.Intn(len(mids))]
 		via := "captain"
@@ -261,6 +262,13 @@ func genHistory(r *rand.Rand, idx int) []op {
 			if r.Intn(2) == 0 {
 				o.State = map[string]interface{}{"node": "start", "bs": map[string]interface{}{"n": float64(r.Intn(5)), "seen": float64(r.Intn(3))}}
 			}
+			if prev, had := lastCreate[mid]; had && !exists[mid] && r.Intn(2) == 0 {
+				// re-create exactly as before (same spec, same state): the report is byte-identical
+				// to an earlier one
+				o = prev
+				o.Via = via
+			}
+			lastCreate[mid] = o
 			exists[mid] = true
 		case k == 3 && exists[mid]:
 			o = op{Kind: "replaceState", Via: via, Mid: mid, State: map[string]interface{}{"node": "start", "bs": map[string]interface{}{"n": float64(10 + r.Intn(5)), "replaced": true}}}
@@ -310,6 +318,11 @@ func featureOf(h []op) []string {
 		case "create":
 			if deleted[o.Mid] {
 				fs = append(fs, "recreate_across_messages")
+				for _, p := range h[:i] {
+					if p.Kind == "create" && p.Mid == o.Mid && p.Spec == o.Spec {
+						fs = append(fs, "recreate_identical_to_an_earlier_create")
+					}
+				}
 			}
 		case "replaceSpecBad":
 			fs = append(fs, "spec_that_does_not_compile")
@@ -320,8 +333,8 @@ func featureOf(h []op) []string {
 
 func Run(cfg fw.Config, rec *fw.Rec) {
 	log.SetOutput(io.Discard)
-	rec.Rule = "histories of 4-13 crew operations over machine ids {m1,m2,m3}: create (with/without state), replace state, replace spec (and, in a fifth of the histories, a spec that does not compile), delete, delete+re-create before the next report, re-create across messages - through captain messages and through direct SetMachine / DeleteMachine calls - interleaved with routed and broadcast messages to counter / recorder machines whose reactions commute; after every message the shadow store folded from Result.Changed must equal the live crew (existence, node, bindings, spec name); at every message boundary a crew booted from the JSON-round-tripped shadow must give the same emissions and machine states for the rest of the history; non-trivial = history with >= 2 crew operations other than messages; distinct by history"
-	rec.Required = []string{"shadow_equal_after_message", "restarts_compared", "replace_state", "replace_spec", "delete_recreate_before_report", "recreate_across_messages"}
+	rec.Rule = "histories of 4-13 crew operations over machine ids {m1,m2,m3}: create (with/without state), replace state, replace spec (and, in a fifth of the histories, a spec that does not compile), delete, delete+re-create before the next report, re-create across messages (also byte-identical to an earlier create) - through captain messages and through direct SetMachine / DeleteMachine calls - interleaved with routed and broadcast messages to counter / recorder machines whose reactions commute; after every message the shadow store folded from Result.Changed must equal the live crew (existence, node, bindings, spec name); at every message boundary a crew booted from the JSON-round-tripped shadow must give the same emissions and machine states for the rest of the history; non-trivial = history with >= 2 crew operations other than messages; distinct by history"
+	rec.Required = []string{"shadow_equal_after_message", "restarts_compared", "replace_state", "replace_spec", "delete_recreate_before_report", "recreate_across_messages", "recreate_identical_to_an_earlier_create"}
 	rec.Assume = []string{"reactions of different machines to one message commute (machines only touch their own bindings and emit to nobody)", "a missing stored state is the default start/{} the boot path supplies", "service machines captain and timers are not compared"}
 	n := cfg.Pick(1200, 20000)
 	fw.Parallel(cfg.Workers, n, func(w, i int) {
